@@ -255,6 +255,61 @@ def check_ionq_results(ctx, cirq, cirq_ionq, n):
 
 
 # ------------------------------------------------------------------------------ AQT
+def check_ionq_batches(ctx, cirq, cirq_ionq):
+    """a batch job: the i-th result belongs to the i-th circuit — its histogram is read with that circuit's keys, targets and width —
+    whatever the child-job ids look like (the service lists the children in submission order).  Deterministic X-only circuits, the
+    histograms are computed here from the serialized program."""
+    rng = ctx.substream('ionq-batches')
+    for it in range(6 if ctx.tier == 'quick' else 60):
+        nc = rng.randint(2, 4)
+        circuits_, want = [], []
+        for j in range(nc):
+            nq = rng.randint(1, 3)
+            qs = cirq.LineQubit.range(nq)
+            flips = [rng.randint(0, 1) for _ in qs]
+            if not any(flips):
+                flips[rng.randrange(nq)] = 1
+            order = list(range(nq))
+            rng.shuffle(order)
+            key = f'k{j}'
+            circuits_.append(cirq.Circuit([cirq.X(q) for q, f in zip(qs, flips) if f], cirq.measure(*[qs[i] for i in order], key=key)))
+            want.append((key, [flips[i] for i in order]))
+        prog = cirq_ionq.Serializer().serialize_many_circuits(circuits_)
+        hists = []
+        for c in prog.input['circuits']:
+            bits = {}
+            for op in c['circuit']:
+                for t in op['targets']:
+                    bits[t] = bits.get(t, 0) ^ 1
+            hists.append({str(sum(b << i for i, b in bits.items())): 1.0})
+        ids = [f'{rng.randrange(16 ** 8):08x}-0000-4000-8000-{j:012d}' for j in range(nc)]
+        if ids == sorted(ids):
+            ids.reverse()
+        backend_results = dict(zip(ids, hists))
+
+        class Stub:
+            def get_results(self, job_id, sharpen=None, extra_query_params=None):
+                return backend_results
+
+        for target in ('qpu', 'simulator'):
+            job = cirq_ionq.Job(Stub(), {'id': 'parent', 'status': 'completed', 'backend': target, 'stats': {'qubits': str(prog.input['qubits'])}, 'metadata': {'shots': '3', **prog.metadata}})
+            ctx.count('check', 'ionq:batch-results')
+            ctx.case(['ionq-batch', nc, target, ids], True)
+            try:
+                res = job.results()
+                got = []
+                for r in res:
+                    cr = r.to_cirq_result(seed=1) if target == 'simulator' else r.to_cirq_result()
+                    got.append([(k, [int(x) for x in v[0]]) for k, v in cr.measurements.items()])
+            except Exception as e:  # noqa: BLE001
+                got = f'{type(e).__name__}: {e}'[:150]
+            if got != [[w] for w in want]:
+                ctx.report_witness('ionq:results:batch', 'the results of a batch job are not read back per circuit in submission order (keys / bits of one circuit under another)',
+                                   {'lines': [{'circuits': [repr(c) for c in circuits_], 'child_ids': ids, 'target': target}], 'impl_out': [got], 'spec_out': [[[w] for w in want]],
+                                    'theorem_or_correspondence': 'little-endian outcome encoding per circuit (Spec.Vendor)'})
+                break
+
+
 def check_aqt(ctx, cirq, n):
     import cirq_aqt
 
@@ -480,6 +535,7 @@ def run(ctx: common.Run):
     n = 120 if ctx.tier == 'quick' else 2500
     check_ionq(ctx, cirq, cirq_ionq, n)
     check_ionq_results(ctx, cirq, cirq_ionq, n // 2)
+    check_ionq_batches(ctx, cirq, cirq_ionq)
     check_aqt(ctx, cirq, n // 2)
     check_altered(ctx, cirq, cirq_ionq)
     check_rules(ctx, cirq, cirq_ionq)
